@@ -395,13 +395,13 @@ class ModelFile:
             siblings=True,
         )
 
-    def unfollow_href(self, element_id: str) -> etree._Element:
+    def unfollow_href(self, element_id: str) -> etree._Element | None:
         """Unfollow a fragment link and return the placeholder element.
 
         If the given UUID is not linked to from this file, None is
         returned.
         """
-        return self.__hrefsources[element_id]
+        return self.__hrefsources.get(element_id)
 
 
 class MelodyLoader:
@@ -1216,6 +1216,10 @@ class MelodyLoader:
 
     def _unfollow_href(self, element_id: str) -> etree._Element:
         for tree in self.trees.values():
+            # Only semantic files contain fragment placeholders; an
+            # "href" in a visual file merely references its target.
+            if tree.fragment_type is not FragmentType.SEMANTIC:
+                continue
             element = tree.unfollow_href(element_id)
             if element is not None:
                 return element
